@@ -29,7 +29,10 @@ impl TryFrom<WireDiffRequest> for DiffRequest {
             None
         };
         Ok(Self {
-            log_type: value.log_type.unwrap().try_into()?,
+            log_type: value
+                .log_type
+                .ok_or_else(crate::bindings::missing_field)?
+                .try_into()?,
             from_hash,
         })
     }
@@ -67,7 +70,10 @@ impl TryFrom<WireDiffResponse> for DiffResponse {
         }
         Ok(Self {
             patch: events,
-            checkpoint: value.checkpoint.unwrap().try_into()?,
+            checkpoint: value
+                .checkpoint
+                .ok_or_else(crate::bindings::missing_field)?
+                .try_into()?,
         })
     }
 }
